@@ -89,7 +89,8 @@ def discrete_acc(m: Model, d: Data, qacc: wp.array2d[float]):
   if m.opt.integrator == IntegratorType.RK4:
     raise NotImplementedError("discrete inverse dynamics is not supported by RK4 integrator")
   elif m.opt.integrator == IntegratorType.EULER:
-    if m.opt.disableflags & DisableBit.EULERDAMP:
+    # the Euler step applies implicit damping only when both eulerdamp and damper are enabled
+    if m.opt.disableflags & (DisableBit.EULERDAMP | DisableBit.DAMPER):
       wp.copy(qacc, d.qacc)
       return
 
